@@ -558,7 +558,14 @@ def inject(block, fault, fsite):
 
 
 def acceptors(block):
+    import io
+    import contextlib
     res = {}
+    with contextlib.redirect_stdout(io.StringIO()):     # find_and_print_loop prints the loop it finds
+        return _acceptors(block, res)
+
+
+def _acceptors(block, res):
 
     def tryit(name, fn):
         try:
